@@ -7,7 +7,7 @@ import contextlib
 import numpy as np
 import scipy.sparse as sp
 from vfw import refs
-from checks._c03_engine import Case
+from checks._c03_engine import Case, Pieces
 
 
 # ------------------------------------------------------------------------------------------
@@ -512,13 +512,17 @@ def gen_user(dim, k, npts):
     m = locvec(dim, k)
     logpdf = lambda x: float(-0.5 * (np.asarray(x) - m) @ P @ (np.asarray(x) - m) - 0.25 * np.sum((np.asarray(x) - m) ** 4))
     grad = lambda x: -(P @ (np.asarray(x) - m)) - (np.asarray(x) - m) ** 3
-    keys = ["usergrad"]
-    for ug in ("yes", "no"):
-        facets = {"usergrad": ug}
+    # facet "the user's gradient_func returns a fresh array per call / a stored array (the same object whenever the same
+    # point recurs)"; without a gradient_func there is nothing to vary
+    keys = ["usergrad", "alias"]
+    for ug, alias in (("yes", "fresh"), ("yes", "stored"), ("no", "fresh")):
+        facets = {"usergrad": ug, "alias": alias}
 
-        def build(ug=ug, facets=facets):
-            d = D.UserDefinedDistribution(dim=dim, logpdf_func=logpdf, gradient_func=grad if ug == "yes" else None)
-            return Case("UserDefinedDistribution", facets, d, real_points(dim, k, npts), **ipts(dim, k, NINT(npts)))
+        def build(ug=ug, alias=alias, facets=facets):
+            pieces = Pieces(alias)
+            gf = pieces.wrap(grad, "UserDefinedDistribution.gradient_func") if ug == "yes" else None
+            d = D.UserDefinedDistribution(dim=dim, logpdf_func=logpdf, gradient_func=gf)
+            return Case("UserDefinedDistribution", facets, d, real_points(dim, k, npts), pieces=pieces, **ipts(dim, k, NINT(npts)))
         yield "UserDefinedDistribution", keys, facets, build
     if dim == 2:
         keys = ["name"]
